@@ -106,7 +106,7 @@ func runOpPrologue(rr *RuleRun) {
 	names := opMethodNames(ms)
 	for _, m := range ms {
 		key := "cty.Value." + m.Name
-		if ok, why := isMarkPrologue(info, m); ok {
+		if ok, why := isMarkPrologue(c, info, m); ok {
 			rr.OK(key, m.Decl.Pos(), "mark prologue covers operands "+operandNames(m))
 			continue
 		} else if why != "" && why != "no prologue" {
@@ -130,7 +130,7 @@ func operandNames(m *opMethod) string {
 }
 
 // isMarkPrologue checks shape (i) of C04.op-prologue.
-func isMarkPrologue(info *types.Info, m *opMethod) (bool, string) {
+func isMarkPrologue(c *Ctx, info *types.Info, m *opMethod) (bool, string) {
 	body := m.Decl.Body.List
 	if len(body) == 0 {
 		return false, "no prologue"
@@ -187,6 +187,11 @@ func isMarkPrologue(info *types.Info, m *opMethod) (bool, string) {
 			return false, fmt.Sprintf("operands are tested at different depths (%s uses %s): the method either tolerates nested marks on all operands or on none", op.Name(), strings.TrimPrefix(tested[op], "cty.Value."))
 		}
 		depth = tested[op]
+	}
+	// delegated form: return H(Value.M, operands...) with H a helper that does the
+	// unmark / re-invoke / re-apply itself
+	if handled, ok, why := delegatedPrologue(c, info, m, ifs, tested); handled {
+		return ok, why
 	}
 	// body: X', m := X.Unmark()/UnmarkDeep() per operand, then return X'.M(args').WithMarks(all m)
 	unmarked := map[types.Object]types.Object{} // original operand → unmarked local
@@ -290,6 +295,174 @@ func isMarkPrologue(info *types.Info, m *opMethod) (bool, string) {
 		}
 	}
 	return true, ""
+}
+
+// delegatedPrologue recognises a prologue body of the form
+//
+//	return H(Value.M, a, b)      (the method expression in any argument position)
+//
+// where H is a package-level helper whose body unmarks every Value parameter,
+// calls its function parameter on the unmarked values in the same order and
+// re-applies all the marks with WithMarks. handled=false: not this form.
+func delegatedPrologue(c *Ctx, info *types.Info, m *opMethod, ifs *ast.IfStmt, tested map[types.Object]string) (handled, ok bool, why string) {
+	if len(ifs.Body.List) != 1 {
+		return false, false, ""
+	}
+	ret, isRet := ifs.Body.List[0].(*ast.ReturnStmt)
+	if !isRet || len(ret.Results) != 1 {
+		return false, false, ""
+	}
+	call, isCall := ast.Unparen(ret.Results[0]).(*ast.CallExpr)
+	if !isCall {
+		return false, false, ""
+	}
+	h := callee(info, call)
+	if h == nil || h.Type().(*types.Signature).Recv() != nil || h.Pkg() == nil || h.Pkg().Path() != modPath+"/cty" {
+		return false, false, ""
+	}
+	// one argument is the method expression Value.M; the others are the operands in order
+	meIdx := -1
+	var valArgs []int
+	for i, a := range call.Args {
+		if se, isSel := ast.Unparen(a).(*ast.SelectorExpr); isSel {
+			if sel, found := info.Selections[se]; found && sel.Kind() == types.MethodExpr {
+				if meIdx >= 0 {
+					return false, false, ""
+				}
+				f, _ := sel.Obj().(*types.Func)
+				if f == nil || funcKey(f) != "cty.Value."+m.Name {
+					return true, false, "prologue helper is given a different method: " + exprStr(a)
+				}
+				meIdx = i
+				continue
+			}
+		}
+		valArgs = append(valArgs, i)
+	}
+	if meIdx < 0 {
+		return false, false, ""
+	}
+	if len(valArgs) != len(m.Operands) {
+		return true, false, "prologue helper is not given every operand"
+	}
+	for j, i := range valArgs {
+		if o := objOf(info, call.Args[i]); o == nil || o != types.Object(m.Operands[j]) {
+			return true, false, fmt.Sprintf("prologue helper receives %s instead of operand %s (operands must be passed in order)", exprStr(call.Args[i]), m.Operands[j].Name())
+		}
+	}
+	hd := c.Decl("cty", h.Name())
+	if hd == nil || hd.Body == nil {
+		return true, false, "prologue helper " + h.Name() + " has no body to check"
+	}
+	// helper parameters by position
+	var params []types.Object
+	for _, f := range hd.Type.Params.List {
+		for _, n := range f.Names {
+			params = append(params, info.Defs[n])
+		}
+	}
+	if len(params) != len(call.Args) {
+		return true, false, "prologue helper parameter list does not match the call"
+	}
+	opParam := params[meIdx]
+	if sig, isSig := opParam.Type().Underlying().(*types.Signature); !isSig || sig.Params().Len() != len(valArgs) {
+		return true, false, "prologue helper's function parameter does not take every operand"
+	}
+	var hOps []types.Object
+	for _, i := range valArgs {
+		hOps = append(hOps, params[i])
+	}
+	unmarked := map[types.Object]types.Object{}
+	markVar := map[types.Object]types.Object{}
+	var hret *ast.ReturnStmt
+	for _, st := range hd.Body.List {
+		switch s := st.(type) {
+		case *ast.AssignStmt:
+			if len(s.Lhs) != 2 || len(s.Rhs) != 1 {
+				return true, false, "unexpected statement in prologue helper: " + nodeStr(s)
+			}
+			uc, isC := s.Rhs[0].(*ast.CallExpr)
+			if !isC {
+				return true, false, "unexpected statement in prologue helper: " + nodeStr(s)
+			}
+			k := funcKey(callee(info, uc))
+			if k != "cty.Value.Unmark" && k != "cty.Value.UnmarkDeep" {
+				return true, false, "prologue helper rebinding is not Unmark/UnmarkDeep: " + nodeStr(s)
+			}
+			src := objOf(info, uc.Fun.(*ast.SelectorExpr).X)
+			j := -1
+			for x, p := range hOps {
+				if p == src {
+					j = x
+				}
+			}
+			if j < 0 {
+				return true, false, "prologue helper unmarks something that is not one of its operands"
+			}
+			depth := tested[m.Operands[j]]
+			if depth == "cty.Value.ContainsMarked" && k != "cty.Value.UnmarkDeep" {
+				return true, false, fmt.Sprintf("operand %s is tested with ContainsMarked but only shallowly unmarked", m.Operands[j].Name())
+			}
+			if k == "cty.Value.UnmarkDeep" && depth != "cty.Value.ContainsMarked" {
+				return true, false, fmt.Sprintf("operand %s is deep-unmarked but only tested with IsMarked", m.Operands[j].Name())
+			}
+			l0, _ := s.Lhs[0].(*ast.Ident)
+			l1, _ := s.Lhs[1].(*ast.Ident)
+			if l0 == nil || l1 == nil || l1.Name == "_" {
+				return true, false, fmt.Sprintf("marks of operand %s are discarded in the prologue helper", m.Operands[j].Name())
+			}
+			lo := info.Defs[l0]
+			if lo == nil {
+				lo = info.Uses[l0]
+			}
+			mo := info.Defs[l1]
+			if mo == nil {
+				mo = info.Uses[l1]
+			}
+			unmarked[src] = lo
+			markVar[src] = mo
+		case *ast.ReturnStmt:
+			hret = s
+		default:
+			return true, false, "unexpected statement in prologue helper: " + nodeStr(s)
+		}
+	}
+	if hret == nil || len(hret.Results) != 1 {
+		return true, false, "prologue helper does not return"
+	}
+	for j, p := range hOps {
+		if unmarked[p] == nil {
+			return true, false, fmt.Sprintf("operand %s is not unmarked in the prologue", m.Operands[j].Name())
+		}
+	}
+	wm, isWM := ast.Unparen(hret.Results[0]).(*ast.CallExpr)
+	if !isWM || funcKey(callee(info, wm)) != "cty.Value.WithMarks" || wm.Ellipsis.IsValid() {
+		return true, false, "prologue result is not wrapped in WithMarks(...)"
+	}
+	got := map[types.Object]bool{}
+	for _, a := range wm.Args {
+		if o := objOf(info, a); o != nil {
+			got[o] = true
+		}
+	}
+	for j, p := range hOps {
+		if !got[markVar[p]] {
+			return true, false, fmt.Sprintf("marks of operand %s are not re-applied by WithMarks", m.Operands[j].Name())
+		}
+	}
+	inner, isInner := ast.Unparen(wm.Fun.(*ast.SelectorExpr).X).(*ast.CallExpr)
+	if !isInner || objOf(info, inner.Fun) != opParam {
+		return true, false, "WithMarks is not applied to a re-invocation of the method"
+	}
+	if len(inner.Args) != len(hOps) {
+		return true, false, "argument count mismatch in re-invocation"
+	}
+	for j, a := range inner.Args {
+		if o := objOf(info, a); o == nil || o != unmarked[hOps[j]] {
+			return true, false, fmt.Sprintf("re-invocation passes %s instead of the unmarked %s", exprStr(a), m.Operands[j].Name())
+		}
+	}
+	return true, true, ""
 }
 
 func paramIdent(fd *ast.FuncDecl, idx int) *ast.Ident {
@@ -432,7 +605,7 @@ func runUnknownBeforePayload(rr *RuleRun) {
 			focus = append(focus, objKey(o))
 		}
 		res := f.Worlds(spec, extra, nil, focus)
-		prologueOK, _ := isMarkPrologue(info, m)
+		prologueOK, _ := isMarkPrologue(c, info, m)
 		inspectNoLit(m.Decl.Body, func(n ast.Node) bool {
 			ta, ok := n.(*ast.TypeAssertExpr)
 			if !ok {
